@@ -1,0 +1,51 @@
+//go:build verif
+
+package fasthttp
+
+// Contracts for lbclient.go, checked by /verif/gocv (comment-only; compiled to nothing).
+
+// init must not panic for any configuration: an LBClient without Clients is legal (clients may be added later
+// with AddClient, or there may be none, in which case calls return ErrNoAvailableClients).
+//@ func LBClient.init
+//@   property C40
+//@   mode skeleton
+//@   safety C40
+
+// get: nil exactly when there is no client; otherwise the client chosen carries the lexicographically smallest
+// (pending+penalty, completed) pair among the values observed by this call, first minimum wins.
+//@ func LBClient.get results r
+//@   property C40
+//@   mode skeleton
+//@   stable cc.cs
+//@   ghost prevN int = 0
+//@   ghost prevT int = 0
+//@   ghost prevC int = 0
+//@   ghost empty bool = false
+//@   on call lbClient.PendingRequests -> v:
+//@     nohavoc
+//@   on call atomic.LoadUint64 -> v:
+//@     nohavoc
+//@   end
+//@   loop 1:
+//@     iter prevN = minN; prevT = minT; prevC = minC
+//@     atend[not-above-this-client] minN < n || (minN == n && minT <= t)
+//@     atend[never-increases] minN < prevN || (minN == prevN && minT <= prevT)
+//@     atend[first-minimum-wins] n == prevN && t == prevT ==> minC == prevC
+//@   ensures[nil-when-no-clients] len(cc.cs) == 0 ==> r == nil
+
+// incPenalty: a penalty beyond maxPenalty (300) is taken back at once, so the count settles at or below 300.
+//@ func lbClient.incPenalty results r
+//@   property C40
+//@   mode skeleton
+//@   ghost m int = 0
+//@   ghost undone int = 0
+//@   on call atomic.AddUint32(_, d) -> v:
+//@     nohavoc
+//@     effect m = v
+//@     ensures v >= 0
+//@   on call lbClient.decPenalty:
+//@     effect undone = undone + 1
+//@   end
+//@   ensures[bounded] r == (m <= 300)
+//@   ensures[excess-taken-back] !r ==> undone == 1
+//@   ensures[kept-when-counted] r ==> undone == 0
